@@ -233,6 +233,45 @@ PartitionAddsUp(P, s, rs) ==
      \A key \in { KeyOf(rs[i]) : i \in Kept(P, s, rs) } :
         At(Hist(WholeOf(P), s, rs, 1), key) = SumFrames(P, s, rs, Len(P.frames), key)
 
+(* ---------- scanner-specific records: ECAT8 32-bit (PETLINK) words ------ *)
+\* A word is hi * 2^16 + lo (two 16-bit halves, so that TLC's 32-bit integers suffice).
+\*   bit 31: "0-coincidence event, 1-time tick" (tag)
+\*   event:  bit 30 = 1 for a prompt ("0 if event is delayed"), bits 0..29: offset into the scanner's
+\*           uncompressed sinogram ("the listmode data just stores an offset into a (3D) sinogram")
+\*   tag:    bits 29..30 "extra bits differentiating between timing or other stuff, zero if timing event",
+\*           bits 0..28 time in ms since scan start
+EcatIsTag(hi) == hi \div 32768 = 1
+EcatPromptBit(hi) == (hi \div 16384) % 2
+EcatOffset(hi, lo) == (hi % 16384) * 65536 + lo
+EcatTagKind(hi) == (hi \div 8192) % 4
+EcatTime(hi, lo) == (hi % 8192) * 65536 + lo
+\* the uncompressed geometry of a scanner with N detectors per ring, R rings, maxT timing positions and nt
+\* tangential positions: span 1, all ring differences, no mashing
+EcatGeo(N, R, maxT, nt) == [N |-> N, R |-> R, span |-> 1, ge |-> FALSE, maxDelta |-> R - 1, mash |-> 1,
+                            tofMash |-> IF maxT > 0 THEN 1 ELSE 0, maxT |-> maxT,
+                            minTang |-> -(nt \div 2), maxTang |-> -(nt \div 2) + nt - 1, minSeg |-> -(R - 1), maxSeg |-> R - 1]
+\* "data is organised by segment, axial coordinate, view, tangential", TOF bins outermost:
+\*   offset = ((tofIndex * numNonTofSinograms + z) * numViews + view) * numTangentialPositions + tangentialIndex
+\* z runs over the sinograms of the segments in the ECAT order 0, -1, +1, -2, +2, ...
+EcatSegAt(i) == IF i = 1 THEN 0 ELSE IF i % 2 = 0 THEN -(i \div 2) ELSE i \div 2
+EcatSinosBefore(cu, i) == Cardinality({ x \in (1..(i - 1)) \X (0..(2 * cu.R)) : x[2] < NumAx(cu, EcatSegAt(x[1])) })
+\* TOF bins are stored as 0, +1, -1, +2, -2, ... (the order implemented by find_timing_poss_sequence; its
+\* comment says "0, -1, +1": the PETLINK document is not available here, the implementation is taken as reference)
+EcatTofAt(k) == IF k = 0 THEN 0 ELSE IF k % 2 = 1 THEN (k + 1) \div 2 ELSE -(k \div 2)
+EcatNumSinos(cu) == EcatSinosBefore(cu, NumSegs(cu) + 1)
+EcatBinOfOffset(cu, off) ==
+  LET nt == cu.maxTang - cu.minTang + 1
+      nv == NV(cu)
+      ns == EcatNumSinos(cu)
+      r1 == off \div nt
+      r2 == r1 \div nv
+      z == r2 % ns
+      i == CHOOSE q \in 1..NumSegs(cu) : EcatSinosBefore(cu, q) <= z /\ z < EcatSinosBefore(cu, q + 1)
+  IN Bin(EcatSegAt(i), z - EcatSinosBefore(cu, i), r1 % nv, (off % nt) + cu.minTang, EcatTofAt(r2 \div ns))
+EcatOffsetValid(cu, off) == off < NumTof(cu) * EcatNumSinos(cu) * NV(cu) * (cu.maxTang - cu.minTang + 1)
+\* the detection position pair p = <<d1, r1, d2, r2, t>> is one that the geometry assigns to bin b
+AssignedTo(c, p, b) == \E same \in BOOLEAN : IsInPlaneOf(c, p[1], p[3], b.view, b.tang, same) /\ BinGiven(c, p, b.view, b.tang, same) = b
+
 (* -------------------- likelihood gradients (clause 2) ------------------- *)
 \* Both gradients are recorded in fixed point, round(v * 2^k) with k = 12.  They are computed by different
 \* code paths in single precision (per event: row, quotient, back projection; per viewgram: forward
